@@ -148,6 +148,24 @@ pub fn expr_forms() -> Vec<(String, Expr)> {
         ("index-expr-paren".into(), Expr::IndexExpr(bx(Expr::Paren(bx(id("a")))), Index::List(vec![IndexItem::Expr(int(0))]))),
         ("index-expr-call".into(), Expr::IndexExpr(bx(Expr::Call("f".into(), vec![id("a")])), Index::List(vec![IndexItem::Expr(int(0))]))),
         ("neg-lit".into(), Expr::Un(UnOp::Neg, bx(int(1)))),
+        // consecutive index operators on a base that is not a plain identifier nest to the left
+        ("index-expr-call-twice".into(), Expr::IndexExpr(bx(Expr::IndexExpr(bx(Expr::Call("f".into(), vec![id("a")])), Index::List(vec![IndexItem::Expr(int(1))]))), Index::List(vec![IndexItem::Expr(int(0))]))),
+        ("index-expr-paren-range-then-index".into(), Expr::IndexExpr(bx(Expr::IndexExpr(bx(Expr::Paren(bx(id("a")))), Index::List(vec![IndexItem::Range(int(0), None, int(3))]))), Index::List(vec![IndexItem::Expr(int(2))]))),
+        ("index-expr-cast-thrice".into(), Expr::IndexExpr(bx(Expr::IndexExpr(bx(Expr::IndexExpr(bx(Expr::Cast(Ty::Bit(Some(bx(int(8)))), bx(id("a")))), Index::List(vec![IndexItem::Expr(int(0))]))), Index::Set(vec![int(1), int(2)]))), Index::List(vec![IndexItem::Expr(id("b"))]))),
+        // literal spellings with a sign, an upper-case exponent, a leading dot, a unit
+        ("neg-float-lit".into(), Expr::Un(UnOp::Neg, bx(Expr::Float("2.5".into())))),
+        ("neg-imag-float-lit".into(), Expr::Un(UnOp::Neg, bx(Expr::Imag("2.5".into(), true, false)))),
+        ("neg-imag-int-lit".into(), Expr::Un(UnOp::Neg, bx(Expr::Imag("3".into(), false, true)))),
+        ("neg-timing-lit".into(), Expr::Un(UnOp::Neg, bx(Expr::Timing("10".into(), false, "us".into(), false)))),
+        ("float-lit-upper-exponent".into(), Expr::Float("1E3".into())),
+        ("float-lit-dot-upper-signed-exponent".into(), Expr::Float(".5E-3".into())),
+        ("float-lit-trailing-dot-exponent".into(), Expr::Float("1.e+2".into())),
+        ("timing-lit-leading-dot".into(), Expr::Timing(".5".into(), true, "ms".into(), false)),
+        ("timing-lit-upper-exponent".into(), Expr::Timing("2E3".into(), true, "ns".into(), false)),
+        ("imag-lit-leading-dot".into(), Expr::Imag(".5".into(), true, false)),
+        ("imag-int-lit-spaced".into(), Expr::Imag("7".into(), false, true)),
+        ("int-lit-underscore-after-zero".into(), Expr::Int("0_1".into())),
+        ("timing-lit-underscore-after-zero".into(), Expr::Timing("0_1".into(), false, "ns".into(), false)),
     ];
     for op in BINOPS {
         v.push((format!("binary{}", op.text()), Expr::Bin(op, bx(id("a")), bx(id("b")))));
